@@ -67,6 +67,40 @@ theorem invalidate_wins (info : Nat → Lin.EntInfo) (c : Lin.CC) (k : Nat) (ops
   obtain ⟨h1, h2⟩ := Lin.run_absent info ops c1 k hw1 ha1 hno
   exact ⟨Lin.aget_none_of_not_mem h1, h2⟩
 
+/-- **resumption_path_never_stores** (fact table (f), regenerated from security/auth.go): the two
+    resumption paths — the server's `handleSessionResumption` and the client's `resumeSession`,
+    function literals inside them included — call `LookupNonExpired` / `Invalidate` on a session
+    cache and never `Store` (the lease is renewed in place on the entry object). Re-adding a
+    `cache.Store(entry)` there — lock-correct and sequentially a no-op — breaks this theorem. -/
+theorem resumption_path_never_stores : Lin.resumeCallsOK CedarGen.FactsLock.resumeCacheCalls = true := by decide
+
+/-- **invalidate_wins_resumption**: `invalidate_wins` with its "nobody stores the id again"
+    hypothesis discharged from the code for resumptions in flight: whatever cache operations the
+    resumption paths issue (any number of handshakes, any interleaving with the invalidation — the
+    operations are only required to be calls the regenerated table lists), an `Invalidate k` that
+    has taken effect is final: no lookup names `k` afterwards and `k` is not in the cache. -/
+theorem invalidate_wins_resumption (info : Nat → Lin.EntInfo) (c : Lin.CC) (k : Nat) (ops : List Lin.Op)
+    (hw : Lin.WF info c)
+    (hcode : ∀ o ∈ ops, (CedarGen.FactsLock.resumeCacheCalls.map (·.2)).contains o.method = true) :
+    let c1 := (Lin.apply info c (.invalidate k)).1
+    Lin.aget (Lin.run info c1 ops).1.sessions k = none ∧
+    ∀ res ∈ (Lin.run info c1 ops).2, res.names info k = false := by
+  apply invalidate_wins info c k ops hw
+  intro o ho u heq
+  subst heq
+  have h1 := hcode _ ho
+  have hns : (CedarGen.FactsLock.resumeCacheCalls.map (·.2)).contains "Store" = false := by decide
+  have h2 : (Lin.Op.store u).method = "Store" := rfl
+  rw [h2, hns] at h1
+  exact absurd h1 (by decide)
+
+/-- **fact_tables_inhabited**: the tables the inclusion theorems of this file range over still see
+    the code they are about (non-vacuity as an obligation, not only as an example). -/
+theorem fact_tables_inhabited :
+    Cfg.tablesInhabited CedarGen.FactsLock.authSites CedarGen.FactsLock.configWrites CedarGen.FactsLock.globals
+      CedarGen.FactsLock.streamMethods CedarGen.FactsLock.cacheMethods = true ∧
+    CedarGen.FactsCCB.brokerWriteSites.isEmpty = false := by decide
+
 /-- **wf_reachable**: the well-formedness `invalidate_wins` assumes holds in every reachable
     cache (entries are filed under their own id by `Store`; nothing else adds entries). -/
 theorem wf_reachable (info : Nat → Lin.EntInfo) (ops : List Lin.Op) : Lin.WF info (Lin.run info {} ops).1 := by
